@@ -253,14 +253,47 @@ class C13(Check):
         from pox.lib.addresses import EthAddr, IPAddr
         from pox.datapaths.switch import OFConnection
         self.swnet, self.of, self.EthAddr, self.IPAddr, self.OFConnection = swnet, of, EthAddr, IPAddr, OFConnection
+        from pox.lib.ioworker import IOWorker
+        self.IOWorker = IOWorker
         from pox.lib.packet.ethernet import ethernet
         self.ethernet = ethernet
 
     # ------------------------------------------------------------------ real node
 
+    # capability bits of OpenFlow 1.0 (enum ofp_capabilities); the default switch answers flow, table and port statistics
+    CAP_BITS = {"cap_flow_stats": 1, "cap_table_stats": 2, "cap_port_stats": 4, "cap_stp": 8, "cap_reserved": 16, "cap_ip_reasm": 32,
+                "cap_queue_stats": 64, "cap_arp_match_ip": 128}
+    DEFAULT_CAPS = ("cap_flow_stats", "cap_table_stats", "cap_port_stats")
+    ALL_ACTIONS = 0xfff                      # OFPAT_OUTPUT .. OFPAT_ENQUEUE (bits 0..11): every action the switch has a handler for
+    DEFAULT_MISS_SEND_LEN = 128              # OFP_DEFAULT_MISS_SEND_LEN
+
+    def spec_caps(self, st):
+        f = st.get("features")
+        names = self.DEFAULT_CAPS if f is None else [k for k, v in f.items() if v]
+        return sum(self.CAP_BITS[k] for k in names)
+
+    def spec_miss(self, st):
+        return self.DEFAULT_MISS_SEND_LEN if st["miss"] is None else st["miss"]
+
     def make_node(self, st):
-        node = self.swnet.SwitchNode(dpid=st.get("dpid", 1), ports=0, max_buffers=st["max_buffers"], miss_send_len=st["miss"],
-                                     max_entries=st["max_entries"])
+        """a real switch in the state the case describes, built with the tree's own constructors (harness/swnet.py's
+        SwitchNode); only what the case names is passed, the rest is the constructor's default"""
+        from pox.datapaths.switch import SwitchFeatures
+        kw = {"max_buffers": st["max_buffers"], "max_entries": st["max_entries"]}
+        if st["miss"] is not None: kw["miss_send_len"] = st["miss"]
+        if st.get("features") is not None:
+            f = SwitchFeatures()
+            for k, v in st["features"].items(): setattr(f, k, bool(v))
+            for a in ("output", "enqueue", "strip_vlan", "set_vlan_vid", "set_vlan_pcp", "set_dl_dst", "set_dl_src", "set_nw_dst", "set_nw_src",
+                      "set_nw_tos", "set_tp_dst", "set_tp_src"):
+                setattr(f, "act_" + a, True)
+            kw["features"] = f
+        node = self.swnet.SwitchNode.__new__(self.swnet.SwitchNode)
+        node.w = self.IOWorker(); node.w.socket = self.swnet.DummySock()
+        node.sw = self.swnet.SoftwareSwitch(dpid=st.get("dpid", 1), ports=0, **kw)
+        node.ofc = self.OFConnection(node.w)
+        node.sw.set_connection(node.ofc)
+        node.emitted = []
         for p in st["ports"]:
             node.sw.add_port(node.sw.generate_port(p, name="p%d" % p))
         for p in st.get("deleted", []):
@@ -269,17 +302,22 @@ class C13(Check):
         return node
 
     def hw_of(self, st, port):
-        """hardware address (int) the switch gives port `port`"""
-        node = self.make_node({**st, "ports": [port], "deleted": []})
-        return int.from_bytes(node.sw.ports[port].hw_addr.toRaw(), "big")
+        """hardware address (int) the switch gives port `port` (0 if the tree cannot even build the switch)"""
+        try:
+            node = self.make_node({**st, "ports": [port], "deleted": [], "features": None})
+            return int.from_bytes(node.sw.ports[port].hw_addr.toRaw(), "big")
+        except Exception:
+            return 0
 
     def model_state(self, st):
+        """the initial state handed to the model: the case's own numbers and the specification's defaults; only the ports'
+        generated addresses / initial config bits are read off a real switch"""
         node = self.make_node(st)
         sw = node.sw
-        return {"dpid": sw.dpid, "max_buffers": sw.max_buffers, "max_entries": sw.max_entries, "caps": sw.features.capability_bits,
-                "actions": sw.features.action_bits, "miss": sw.miss_send_len, "flags": sw.config_flags,
+        return {"dpid": st.get("dpid", 1), "max_buffers": st["max_buffers"], "max_entries": st["max_entries"], "caps": self.spec_caps(st),
+                "actions": self.ALL_ACTIONS, "miss": self.spec_miss(st), "flags": 0,
                 "ports": [[p.port_no, int.from_bytes(p.hw_addr.toRaw(), "big"), p.config, p.state] for p in sw.ports.values()],
-                "port_stats": [[no, ps.rx_packets, ps.tx_packets, ps.rx_bytes, ps.tx_bytes] for no, ps in sw.port_stats.items()]}
+                "port_stats": [[no, 0, 0, 0, 0] for no in sw.port_stats.keys()]}
 
     # ------------------------------------------------------------------ message spec -> bytes
 
@@ -352,7 +390,11 @@ class C13(Check):
               {"ports": [1], "deleted": [], "max_buffers": 1, "max_entries": 2, "miss": 0},
               {"ports": [2, 3, 7], "deleted": [3], "max_buffers": 2, "max_entries": 1, "miss": 65535},
               {"ports": [], "deleted": [], "max_buffers": 0, "max_entries": 0, "miss": 5},
-              {"ports": [1, 65279], "deleted": [1], "max_buffers": 3, "max_entries": 3, "miss": 128}]
+              {"ports": [1, 65279], "deleted": [1], "max_buffers": 3, "max_entries": 3, "miss": 128},
+              {"ports": [1, 2], "deleted": [], "max_buffers": 4, "max_entries": 6, "miss": None},                       # miss_send_len left to the constructor's default
+              {"ports": [1, 2, 3], "deleted": [], "max_buffers": 100, "max_entries": 50, "miss": 64,                        # a switch given its own features object
+               "features": {"cap_flow_stats": False, "cap_table_stats": True, "cap_port_stats": True, "cap_queue_stats": True, "cap_arp_match_ip": True}},
+              {"ports": [4], "deleted": [], "max_buffers": 1, "max_entries": 1, "miss": None, "features": {}}]
 
     FOCUS_PORTS = [1, 2, OFPP_CONTROLLER, OFPP_FLOOD, OFPP_ALL, OFPP_IN_PORT, OFPP_LOCAL]
 
@@ -647,6 +689,10 @@ class C13(Check):
                 {"k": "stats_request", "xid": 7006, "st": "flow", "mkey": None, "table_id": 0, "out_port": OFPP_NONE}, bar(7007)]
         one(S[0], big)
         one(S[0], [m for m in big if m["k"] != "traffic"], "batch")
+        for st in S[5:]:               # constructor defaults and explicit feature objects: what features / get-config report
+            one(st, [{"k": "features_request", "xid": 1}, {"k": "get_config_request", "xid": 2}, {"k": "stats_request", "xid": 3, "st": "desc"},
+                     {"k": "set_config", "xid": 4, "flags": 1, "miss": 0}, {"k": "get_config_request", "xid": 5}, ps(6, OFPP_NONE), tbl, fl, bar(7), {"k": "features_request", "xid": 8}])
+            one(st, [{"k": "get_config_request", "xid": 2}, {"k": "features_request", "xid": 1}], "batch")
         cases += self.corpus_hardening(S, fm, bar, ps, po, tr, tbl, fl, ag)
         for _ in range(40):
             cases.append(self.gen_case(rng, rng.randint(1, 6), "step"))
@@ -813,7 +859,13 @@ class C13(Check):
         """one real switch driven op by op (so that two of them can be interleaved in one process)"""
         def __init__(self, chk, case):
             self.chk, self.case = chk, case
-            node = self.node = chk.make_node(case["state"])
+            self.broken = None
+            try:
+                node = self.node = chk.make_node(case["state"])
+            except Exception as e:                      # the tree could not even build / connect the switch: an observable, not a harness crash
+                self.broken = "%s" % type(e).__name__
+                self.msgs = case["msgs"]
+                return
             self.excs, self.after = [], []
             orig = node.ofc._error_handler
             ERRX = chk.OFConnection.ERR_EXCEPTION
@@ -847,6 +899,7 @@ class C13(Check):
         def dead(self):
             return bool(self.w.closed or self.w._shutdown_send)
         def do(self, i):
+            if self.broken: return
             chk, node, m, raw = self.chk, self.node, self.msgs[i], self.raws[i]
             del self.excs[:]; del self.after[:]
             if m["k"] == "traffic":
@@ -864,9 +917,11 @@ class C13(Check):
             if self.after: self.cur = self.after[-1]
             self.groups.append({"out": decode_stream(self.take()), "exc": list(self.excs), "st": st, "snap": self.cur, "calls": len(self.after)})
         def finish_step(self):
+            if self.broken: return {"mode": "step", "construct_failure": self.broken, "init": None}
             return {"mode": "step", "init": self.init, "groups": self.groups, "alive": not self.dead(), "left": len(self.w.receive_buf),
                     "final": self.chk.final_state(self.node)}
         def batch(self):
+            if self.broken: return {"mode": "batch", "construct_failure": self.broken, "init": None}
             case = self.case
             stream = b"".join(self.raws)
             if case.get("drop_tail"): stream = stream[:len(stream) - case["drop_tail"]]      # the last message has not arrived completely
@@ -966,7 +1021,10 @@ class C13(Check):
                 evs.append(e)
                 starting = False
             evs.append(self._sync(snap, False, flows=moved))       # counters as the data path left them (packet_out / buffered packets move them)
-        st = self.model_state(case["state"])
+        try:
+            st = self.model_state(case["state"])
+        except Exception:
+            return None
         return {"state": st, "msgs": evs}
 
     def model_obs(self, case, resp):
@@ -1076,6 +1134,9 @@ class C13(Check):
             def f(r):
                 if sorted(p[0] for p in r["ports"]) != sorted(live_ports): return "features-port-set-differs"
                 if r["ntab"] < 1 or r["nbuf"] != case_state["max_buffers"]: return "features-capacity-differs"
+                if r["dpid"] != case_state.get("dpid", 1): return "features-dpid-differs"
+                if r["caps"] != self.spec_caps(case_state): return "features-capabilities-differ | expected %d got %d" % (self.spec_caps(case_state), r["caps"])
+                if r["acts"] != self.ALL_ACTIONS: return "features-action-bits-differ | expected %d got %d" % (self.ALL_ACTIONS, r["acts"])
                 return None
             case_state = ctx["state"]
             return one(is_type("features_reply", f), "features_reply")
@@ -1233,8 +1294,10 @@ class C13(Check):
 
     def _oracle_one(self, case, obs):
         st = case["state"]
+        if obs.get("construct_failure"):
+            return "switch-construction:internal-failure:%s | state %s" % (obs["construct_failure"], {k: v for k, v in st.items() if k != "ports"})
         live_ports = [p for p in st["ports"] if p not in st["deleted"]]
-        ctx = {"hello": False, "config": (0, st["miss"]), "ports": live_ports, "stat_ports": list(st["ports"]), "state": st, "table": SpecTable(st["max_entries"]),
+        ctx = {"hello": False, "config": (0, self.spec_miss(st)), "ports": live_ports, "stat_ports": list(st["ports"]), "state": st, "table": SpecTable(st["max_entries"]),
                "hw": self._hw_cache(st), "live": set() if case["mode"] == "step" else None, "starting": True, "snap": obs.get("init")}
         raws = [self.to_bytes(m) for m in case["msgs"]]
         closing = bool(case["msgs"]) and case["msgs"][-1]["k"] == "bad" and case["msgs"][-1].get("why") == "version"
@@ -1293,8 +1356,11 @@ class C13(Check):
         key = (st.get("dpid", 1), tuple(st["ports"]))
         c = self.__dict__.setdefault("_hwc", {})
         if key not in c:
-            node = self.make_node({**st, "deleted": []})
-            c[key] = {p.port_no: int.from_bytes(p.hw_addr.toRaw(), "big") for p in node.sw.ports.values()}
+            try:
+                node = self.make_node({**st, "deleted": [], "features": None})
+                c[key] = {p.port_no: int.from_bytes(p.hw_addr.toRaw(), "big") for p in node.sw.ports.values()}
+            except Exception:
+                c[key] = {}
         return c[key]
 
     def finding_key(self, case, obs, failure):
